@@ -71,6 +71,18 @@ CHECKS["C11"] = dict(
          "Token texts are finite-choice. Known finding: RecursionError from depth 496 (region d>=496 subtracted from the z3 search).",
     ref="DESIGN.md 5/C11")
 
+CHECKS["C04"] = dict(
+    technique=TECH + " - every validation entry point on small documents (finite-choice structure and texts); z3 integer query "
+                     "over the exit expression translated from the AST of cli.validate()",
+    category="model_checking",
+    text="Agreement harness: for every document of the bound (root + <=2/3 children from a pool covering valid/invalid values, ID/IDREF, "
+         "dangling IDREF, unique violation, undeclared child; one child text from a lexical-variant pool) is_valid, iter_errors, validate, strict/lax/skip decode, "
+         "the package-level functions and Element/ElementTree/XMLResource sources agree (same verdict, same error list, strict raises the "
+         "first lax error, same data). CLI: for k<=3 files with 0..65536 errors each (or a caught exception) the exit status is 0 exactly when "
+         "there is no error, decided by z3 on the translated exit expression and replayed by running the real command.",
+    note="I/O source kinds (path, URL, bytes, open file) are exercised only in the CLI replay. POSIX exit-status contract (mod 256) is a stub.",
+    ref="DESIGN.md 5/C04")
+
 NOT_APPLICABLE = {
     "C18": "quantifies over thread interleavings; no engine of this family here executes Python threads symbolically (CrossHair is "
            "single-threaded); see DESIGN.md section 6",
